@@ -294,7 +294,36 @@ def main():
             ("second-focus-alone@child", "ga > fa(!!y)", "refuse", False, ["ValueError", "SelectorError"]),
             ("second-focus-alone@incall", "ga(fa(x, !!y))", "refuse", False, ["ValueError", "SelectorError"])]
 
-    def attempt(text, ovr):
+    # unusual but legal arguments of probing(): an explicitly empty environment resolves nothing (the caller's scope must not
+    # be consulted instead), and probe_type="total" does not waive the focus rules
+    EXTRA = {"empty-env": {"env": {}}, "empty-env-dict": {"env": dict()},
+             "total:second-focus-alone": {"probe_type": "total"}, "total:second-focus-alone2": {"probe_type": "total"},
+             "total:second-focus-alone@child": {"probe_type": "total"}, "total:ok": {"probe_type": "total"},
+             "immediate:second-focus-alone": {"probe_type": "immediate"}}
+    SEL += [("empty-env", "fa > y", "refuse", False, R), ("empty-env-dict", "ga > fa > y", "refuse", False, R),
+            ("total:second-focus-alone", "fa(!!y)", "refuse", False, ["ValueError", "SelectorError"]),
+            ("total:second-focus-alone2", "fa(x, !!y)", "refuse", False, ["ValueError", "SelectorError"]),
+            ("total:second-focus-alone@child", "ga > fa(!!y)", "refuse", False, ["ValueError", "SelectorError"]),
+            ("immediate:second-focus-alone", "fa(!!y)", "refuse", False, ["ValueError", "SelectorError"]),
+            ("total:ok", "fa(x, y)", "accept", False, R)]
+
+    def attempt(text, ovr, what=""):
+        _in_scope = (fa, ga)          # the calling scope knows both functions: an empty env must still resolve nothing
+        try:
+            kw = dict(EXTRA.get(what, {}))
+            if "env" not in kw:
+                kw["env"] = env
+            if "probe_type" in kw:
+                p = probing(text, env=kw["env"], probe_type=kw["probe_type"])
+            else:
+                p = probing(text, env=kw["env"], overridable=ovr)
+            with p:
+                ga(1)
+            return "ok"
+        except BaseException as ex:
+            return type(ex).__name__
+
+    def attempt_old(text, ovr):
         try:
             p = probing(text, env=env, overridable=ovr)
             with p:
@@ -320,10 +349,10 @@ def main():
         except BaseException:
             pass
     for what, text, expect, ovr, allowed in SEL:
-        o = attempt(text, ovr)
-        again = [attempt(text, ovr)]
+        o = attempt(text, ovr, what)
+        again = [attempt(text, ovr, what)]
         inspect_selector(text)
-        again.append(attempt(text, ovr))
+        again.append(attempt(text, ovr, what))
         cases.append({"id": len(cases), "kind": "select", "what": what, "text": text, "expect": expect, "outcome": o, "again": again,
                       "allowed": allowed + ["SyntaxError"]})
     # selectors are interned for the life of the process: what they report must not have changed meanwhile
